@@ -633,7 +633,7 @@ fn run_seq<T: TargetKind>(c: &mut Ctx, fam: &str, idx: u64, rng: &mut Rng, size_
 
 pub fn run(c: &mut Ctx) {
     let fam = "seq";
-    let total = c.total(24_000, 2_400_000);
+    let total = c.total(300_000, 6_000_000);
     let mut obs = Obs { pointers: 0, failed_pushes: 0, ok_pushes: 0, max_len: 0, case_changed_by_compression: 0 };
     for idx in c.cases(fam, total) {
         if c.out_of_time() {
